@@ -139,6 +139,8 @@ structure RunObs where
   bound  : Option Int := none    -- value of the shared bound after a bounded run
   free   : Bool := false         -- flow/assign lines are class F (bounded Dinic run with bound < max flow)
   rerun  : Bool := false         -- the case runs the object again: flow2/assign2 repeat flow/assign
+  flow2  : Option String := none -- Dinic, unbounded: what the MODEL reports after `rr` further runs (`Dinic.runAgainN`)
+  assign2 : Option String := none
 deriving Inhabited
 
 /-- the capacity closure of the case (identity for `from_edge_list` cases) -/
@@ -156,8 +158,16 @@ def runDinic (inp : Inp) (fuel : Nat) : RunObs × Option Dinic :=
     | none => ({ pre := pre, flow := "STUCK", assign := "STUCK", res := [], stuck := true }, none)
     | some d =>
       let a := d.assignment? inp.s
+      -- the same object run again `rr` times: computed by the model of the repaired `run` (`Dinic.runAgain`,
+      -- proved to change nothing: Props.C01.dinic_rerun_same_value / Props.C02.dinic_rerun_same_cut)
+      let (f2, a2, stuck2) :=
+        if inp.rr > 0 && inp.rr ≤ 64 then
+          match Dinic.runAgainN fuel inp.rr d with
+          | some d2 => (some (outIntS d2.maxFlow?), some (outBitsS (d2.assignment? inp.s)), false)
+          | none => (some "STUCK", some "STUCK", true)
+        else (none, none, false)
       ({ pre := pre, flow := outIntS d.maxFlow?, assign := outBitsS a, res := d.g.triples,
-         stuck := a matches .stuck }, some d)
+         stuck := (a matches .stuck) || stuck2, flow2 := f2, assign2 := a2 }, some d)
 
 /-- `run_with_upper_bound(B)` on the Dinic model; `trueFlow` = the unbounded model's (proved maximal) value -/
 def runDinicBounded (inp : Inp) (fuel : Nat) (B : Int) (trueFlow : Option Int) : RunObs :=
@@ -196,8 +206,8 @@ def renderObs (withPre withAssign : Bool) (solver : String) (o : RunObs) : Array
     | some b => a.push s!"F {solver} bound={b}"
     | none => a
   if o.rerun then
-    let a := a.push s!"D {solver} flow2={o.flow}"
-    if withAssign then a.push s!"D {solver} assign2={o.assign}" else a
+    let a := a.push s!"D {solver} flow2={o.flow2.getD o.flow}"
+    if withAssign then a.push s!"D {solver} assign2={o.assign2.getD o.assign}" else a
   else a
 
 /-- is there a phase with two augmentations whose paths (source … target) share their first edge? -/
